@@ -43,9 +43,10 @@ def prepare_for_rewriting(module: gtirb.Module, nop: bytes) -> Iterator[None]:
     else:
         assign_integral_symbols(module)
 
-    alignment = (
-        {} if module.file_format == gtirb.Module.FileFormat.ELF else None
-    )
+    # When the module has no alignment table yet, pass None so that the join
+    # below looks the table up again: a patch may create it during the rewrite
+    # (e.g. via an .align directive) and its requirements must be honored.
+    alignment = None
     if _auxdata.alignment.exists(module):
         alignment = _auxdata.alignment.get_or_insert(module)
 
